@@ -49,6 +49,8 @@ TGetEnd ==
   /\ Is("get-end")
   /\ IF E.h = 0
        THEN (E.m # 0 \/ mode # "open") /\ UNCHANGED obsvars      \* nil: no setFunc / it returned nil / closed
+     ELSE IF Has("known")                                         \* (see TFinalize) keep the handle id so that its release is accepted
+       THEN hnd' = (E.h :> 0) @@ hnd /\ UNCHANGED <<cur, vals, dels, mode>>
        ELSE OkGetEnd(E.h, E.k, E.v) /\ DoGetEnd(E.h, E.k, E.v) /\ UNCHANGED <<cur, dels, mode>>
 TRelBegin ==
   /\ Is("release-begin")
